@@ -358,14 +358,14 @@ def genbb_queries(db, prop, known):
             if only and name not in only:
                 continue
             qid = 'genbbsub/c06/%s' % name
-            kw = [k['site'] for k in known if k['qid'] == qid and k.get('site') and k['property'] == 'C06']
-            kw7 = [k['site'] for k in known if k['qid'] == qid and k.get('site') and k['property'] == 'C07']
+            kw = sorted({k['site'] for k in known if k['qid'] == qid and k.get('site') and k['property'] == 'C06'})
+            kw7 = sorted({k['site'] for k in known if k['qid'] == qid and k.get('site') and k['property'] == 'C07'})
             try:
                 q = genbb.build_c06_query(db, prog, name, lv.get(name), known_where=kw, known_where7=kw7)
             except (bx2c.Unsupported, f77c.Unsupported) as e:
                 skipped.append((name, 'NOT COVERED: ' + str(e)[:300]))
                 continue
-            qs.append(Query(qid, q['c'], checks=['--no-standard-checks', '--bounds-check', '--pointer-check'], meta=q['meta'], timeout=600))
+            qs.append(Query(qid, q['c'], checks=['--no-standard-checks', '--bounds-check', '--pointer-check'], meta=q['meta'], timeout=900, mem_gb=20, extra=('--object-bits', '12')))
     else:
         ids = {}
         for name in bkg:
